@@ -287,6 +287,45 @@ def handler(payload):
             res["input"] = observe(m)
             res["total_len"] = m.total_len
             res["app_len"] = m.app_len
+            if case.get("history"):
+                # a second export of the SAME object, optionally after a change through the public attributes
+                first = list(sigs)
+                res["signed"] = first
+                del sigs[:]
+
+                def second():
+                    from spsdk.image.keystore import KeyStore, KeySourceType
+                    from spsdk.image.trustzone import TrustZone
+                    from spsdk.crypto.signature_provider import get_signature_provider
+                    for op in case["history"]:
+                        if op[0] == "set_app":
+                            m.app = bytes.fromhex(op[1])
+                        elif op[0] == "set_key_store":
+                            m.key_store = None if op[1] is None else KeyStore(KeySourceType.KEYSTORE, bytes.fromhex(op[1]))
+                        elif op[0] == "set_tz_custom":
+                            m.trust_zone = TrustZone.from_binary(family=case["family"], raw_data=bytes.fromhex(op[1]))
+                        elif op[0] == "set_cert":
+                            c2 = dict(case)
+                            c2["cert"] = op[1]
+                            cfg2 = {"family": case["family"], "certBlock": cert_cfg(c2, d)}
+                            m.cert_block = type(m.cert_block).from_config(cfg2, search_paths=[d, "."])
+                            m.signature_provider = get_signature_provider(local_file_key=op[1]["key"])
+                            wrap(m, sigs)
+                        elif op[0] == "export":
+                            pass
+                        else:
+                            raise ValueError(op[0])
+                    return bytes(m.export())
+                r = guarded(second)
+                if r[0] == "ok":
+                    res["image2"] = r[1].hex()
+                    res["signed2"] = list(sigs)
+                    r3 = guarded(lambda: m.rkth)
+                    res["rkth2"] = (bytes(r3[1]).hex() if r3[1] is not None else None) if r3[0] == "ok" else list(r3)
+                    res["input2"] = observe(m)
+                    res["app_len2"] = m.app_len
+                else:
+                    res["image2"] = list(r)
             if case.get("cli"):
                 r = guarded(lambda: cli_export(cfg, d), 60)
                 res["cli_image"] = r[1] if r[0] == "ok" else list(r)
